@@ -1,2 +1,4 @@
-#![allow(dead_code, unused_imports)]
+#![allow(dead_code, unused_imports, unused_macros)]
+#[cfg(kani)] mod c14_scalars;
+#[cfg(kani)] mod c15_euclid;
 #[cfg(kani)] mod c17_bitseq;
